@@ -52,10 +52,11 @@ def run(ids, tier="quick", seeds=("1",)):
         finally:
             shutil.rmtree(copy, ignore_errors=True)
         caught = all(rc == 1 for rc, _ in outs)
+        broken = [rc for rc, _ in outs if rc not in (0, 1)]
         kind = ""
         if outs and outs[0][1]:
             kind = "no-failing-input-found" if "no-failing-input-found" in outs[0][1][0] else "with-failing-input"
-        rows.append((sid, prop, "CAUGHT" if caught else ("partly" if any(rc == 1 for rc, _ in outs) else "MISSED"), kind))
+        rows.append((sid, prop, ("CHECK-ERROR rc=%s" % broken[0]) if broken else "CAUGHT" if caught else ("partly" if any(rc == 1 for rc, _ in outs) else "MISSED"), kind))
         print(rows[-1], flush=True)
         record(sid, tier, rows[-1][2], kind)
     return rows
